@@ -171,7 +171,7 @@ CHECKS = [
              "are decided by the bounded part only; known finding C10-offcycle-disqualifies",
      "not_covered": ["hourly monthly-coverage verdicts are decided by the bounded part only", "billing period day counting"],
      },
-    {"id": "C03", "level": "proof", "modules": ["contracts.C03_seed"], "bounded": ["flow.C03_tables", "bounded.C03_repeat"],
+    {"id": "C03", "level": "other", "explanation": "seed contract proved for all seeds; ownership / frame obligations decided on the AST; history independence itself decided by bounded repeated fits (labelled bounded)", "modules": ["contracts.C03_seed"], "bounded": ["flow.C03_tables", "bounded.C03_repeat"],
      "technique": "deductive verification of the seed validator (pyvc, integer VCs, z3, counterexamples replayed) + ownership / frame obligations from the AST of the whole package + bounded repeated fits under different process histories",
      "text": "Proof: for every seed value the hourly settings accept, _check_seed copies exactly that seed to _seed and to the ElasticNet and clustering "
              "settings and draws nothing from the global generator; a missing seed is drawn once and the same value reaches both consumers. Ownership "
